@@ -3,3 +3,4 @@ pub mod window;
 pub mod selection;
 pub mod stallguard;
 pub mod weakfilter;
+pub mod registration;
